@@ -89,6 +89,7 @@ namespace ratio
     smt::rational current_time;                                             // the current time in plan units..
     const smt::rational units_per_tick;                                     // the number of plan units for each tick..
     smt::lit xi;                                                            // the execution variable..
+    bool xi_violated = false;                                               // a solution has been found in which the execution variable is false (the plan can't be executed anymore)..
     std::unordered_map<const atom *, atom_adaptation> adaptations;          // for each atom, the numeric adaptations done during the executions (i.e., freezes and delays)..
     std::unordered_map<smt::var, atom *> all_atoms;                         // all the interesting atoms indexed by their sigma_xi variable..
     std::unordered_map<const atom *, smt::rational> dont_start, dont_end;   // the starting (ending) atoms which are not yet ready to start (end)..
